@@ -6,9 +6,9 @@ import (
 	"go/constant"
 	"go/token"
 	"go/types"
-	"strconv"
 	"math/big"
 	"sort"
+	"strconv"
 	"strings"
 
 	"verif/checker/core"
